@@ -7,6 +7,7 @@ EXTENDS Integers, Sequences, FiniteSets, TLC
 CONSTANTS Big
 VARIABLES f, p, sec, stage
 L == INSTANCE HeaderLine
+A == INSTANCE HeaderLineAlgo
 PadSet == IF Big THEN {<<>>, <<32>>, <<32, 32, 32>>, <<9>>, <<32, 9>>} ELSE {<<>>, <<32>>, <<9>>}
 a == 97  one == 49  two == 50  zero == 48  three == 51  slash == 47  q == 34  lb == 91  rb == 93
 Mn == {<<a>>, <<a, a>>, <<a, 32, a>>, <<a, one>>, <<233>>}
@@ -36,4 +37,8 @@ Next == \/ /\ stage = 0 /\ stage' = 1 /\ UNCHANGED p
                 /\ p' = pp
 Spec == Init /\ [][Next]_<<f, p, sec, stage>>
 Inverts == stage = 2 => L!Parse(L!Format(f, p), sec) = L!Expected(f)
+\* the regex cascade computes the same parse, except on the recorded class D26
+AlgoRefinesIntent == stage = 2 => (A!AlgoParse(L!Format(f, p), sec) = L!Parse(L!Format(f, p), sec) \/ L!KnownD26(L!Format(f, p), sec))
+\* without the exception the refinement must fail (the design-level counterexample of D26)
+AlgoEqualsIntent  == stage = 2 => A!AlgoParse(L!Format(f, p), sec) = L!Parse(L!Format(f, p), sec)
 =============================================================================
